@@ -19,7 +19,16 @@ TRUSTED = ["the 'unicode-escape' codec and urllib unquote are not modelled: poin
 ASSUMPTIONS = ["documents are built from dict/list/str/int/float/bool/None with distinct container objects"]
 
 LOOKALIKES = ["+1", " 1", "1 ", "1_0", "01", "00", "-0", "-1", "-", "#", "#0", "#1", "#a", "~a", "~0", "１", "1", "0", "2", "3",
-              "a", "", "zz", "é", "9007199254740992", "-9007199254740992", "1e0", "0x1", "٣"]
+              "a", "", "zz", "é", "9007199254740992", "-9007199254740992", "1e0", "0x1", "٣",
+              # an ASCII lead digit followed by other decimal digits (Nd): names, never indices
+              "1０", "1٠", "2१", "1٣", "-1０", "1０0", "10", "11", "13"]
+
+# documents in which the look-alikes are members beside their ASCII twins, and arrays long enough for the twin's index
+LOOKALIKE_DOCS = [
+    {"1０": "fullwidth", "10": "ascii", "1٠": "arabic", "2१": "devanagari", "21": "ascii21", "１": "fw1", "1": "one"},
+    {"a": list(range(100, 123)), "b": {"1０": [1, 2], "10": [3]}},
+    list(range(14)),
+]
 
 
 def _cases_for_doc(doc, rng, dense):
@@ -55,7 +64,7 @@ def gen(rng, tier):
 
 
 def _gen(rng, tier):
-    for doc in SMALL_DOCS:
+    for doc in SMALL_DOCS + LOOKALIKE_DOCS:
         yield from _cases_for_doc(doc, rng, dense=True)
     n = 1200 if tier == "thorough" else 120
     for _ in range(n):
